@@ -185,7 +185,13 @@ def project_obs(tier, rnd):
     return obs
 
 
+def sampler_record_obs(tier, rnd):
+    """fixed-layout records of the Sampler (400-byte header, sample records) for names of every length class: shared with C16"""
+    from vf.props import c16
+    return [o for o in c16.record_obs(tier, rnd) if o.oid.startswith("record.names.") or o.oid == "notemap"]
+
+
 def obligations(tier, seed):
     rnd = random.Random(seed)
     S = spec.load()
-    return module_obs(tier, rnd, S) + project_obs(tier, rnd)
+    return module_obs(tier, rnd, S) + project_obs(tier, rnd) + sampler_record_obs(tier, rnd)
